@@ -4,7 +4,7 @@ import os
 
 from hypothesis import strategies as st
 
-from .. import core
+from .. import core, gen
 from .. import oracle as O
 
 RULE = ("(a) date ranges: pairs of dates (ordered, equal, reversed; same month / month / year crossing) in the "
@@ -15,7 +15,7 @@ RULE = ("(a) date ranges: pairs of dates (ordered, equal, reversed; same month /
         "tomorrow, weekday, none with latent on, none with latent off} in explicit clock notation (strict: "
         "the returned resolution must equal the oracle) and bare digits (candidate tier: the oracle value "
         "must be among the streamed candidates). (c) every before/after/not-before/not-after alternative "
-        "x X in {clock, date, relative day}. Oracle: start = anchor@A; end = anchor@B if after A, else B+12h "
+        "(incl. capitalised spellings) x X in {clock, date, relative day}. (d) part of day (plain and with early/late modifiers, EN/DE) x clock range on the 12h dial: a second-half part of day moves both ends into the pm half, a morning part leaves them. Oracle: start = anchor@A; end = anchor@B if after A, else B+12h "
         "if both written hours <= 12 and that is after A, else B+24h; start < end <= start+24h; reversed or "
         "equal dates never give an interval whose start is not before its end; before/after: open on the "
         "stated side only, bound = X. thorough enumerates (b) completely; quick samples with Hypothesis. "
@@ -117,7 +117,12 @@ def check_clock(sh, smi, eh, emi, joiner, wrapper, anchor, style, latent, ref, a
             got = norm(O.bestval(text, ref, latent_time=latent))
             ok = got == exp
         else:
-            cands = [norm(O.value(c.resolution)) for c in O.cands(text, ref, latent_time=latent)]
+            # candidate tier: with nothing pruned every derivation is streamed; the default beam keeps only ten
+            # candidate sequences and may drop the range reading of bare digits (see DESIGN 5.2)
+            n_, nseq, maxlen = gen.seq_stats3(text)
+            if nseq > 40 or maxlen > 6:
+                return text, exp, "skip"   # the complete stream is not enumerable within the work bound: not asserted
+            cands = [norm(O.value(c.resolution)) for c in O.cands(text, ref, latent_time=latent, max_stack_depth=0)]
             got = cands
             ok = exp in cands
     except Exception as e:
@@ -216,10 +221,10 @@ def classify_dates(got, exp):
 
 # not listed: 'latest', 'earliest', 'frühestens' and their compounds - the same words are spellings of the
 # parts of day 'last' / 'first' (rules.py:126-135), a competing reading by the library's own patterns
-BEFORE = ["vor", "before", "bis spätestens", "spätestens", "spätestens bis", "bis"]
-AFTER = ["nach", "after", "ab", "from"]
-NOT_BEFORE = ["not before", "nicht vor"]
-NOT_AFTER = ["not after", "nicht nach"]
+BEFORE = ["vor", "before", "bis spätestens", "spätestens", "spätestens bis", "bis", "Before", "Vor", "Bis"]
+AFTER = ["nach", "after", "ab", "from", "After", "Ab", "Nach"]
+NOT_BEFORE = ["not before", "nicht vor", "Not before", "Nicht vor", "NOT BEFORE"]
+NOT_AFTER = ["not after", "nicht nach", "Not after", "Nicht nach", "NICHT NACH"]
 XS = [("8:30", O.T(hour=8, minute=30), "clock"), ("17:00", O.T(hour=17, minute=0), "clock"), ("8 Uhr", O.T(hour=8, minute=0), "clock"),
       ("5.10.2021", O.T(2021, 10, 5), "date"), ("31.12.2021", O.T(2021, 12, 31), "date"),
       ("tomorrow", None, "rel"), ("morgen", None, "rel"), ("5.10.2021 8:30", O.T(2021, 10, 5, 8, 30), "datetime")]
@@ -258,10 +263,71 @@ def beforeafter_items():
 # ---------------------------------------------------------------------------------
 
 
+# ---------------------------------------------------------------------------------
+# (d) part of day x clock range (rules.py:730-769): a part of day of the second half of the day moves a
+# range written on the 12h dial into the afternoon/evening; a morning part leaves it alone
+
+POD_RANGE_PM = ["evening", "in the evening", "afternoon", "abends", "nachmittags", "tonight", "in the late evening",
+                "late evening", "in the early afternoon", "am späten nachmittag", "früher abend", "at night"]
+POD_RANGE_AM = ["morning", "in the morning", "morgens", "vormittags", "in the early morning"]
+
+
+def check_podrange(pod, pm, sh, eh, wrapper, joiner, anchor, style, ref):
+    a_txt, a_date = anchor_date(anchor, ref)
+    rng = wrapper[0] + clock_txt(sh, 0, style) + (wrapper[1] if wrapper[0] else joiner) + clock_txt(eh, 0, style)
+    text = ((a_txt + " ") if a_txt else "") + pod + " " + rng
+    s2, e2 = (sh + 12, eh + 12) if pm else (sh, eh)
+    if a_date is not None:
+        exp = ("I", T_at(a_date, s2, 0), T_at(a_date, e2, 0))
+    else:
+        sd = ref.date() if s2 * 60 > ref.hour * 60 + ref.minute else ref.date() + dt.timedelta(days=1)
+        exp = ("I", T_at(sd, s2, 0), T_at(sd, e2, 0))
+    strict = style != "bare"
+    try:
+        # candidate tier: nothing pruned (all derivations are streamed at depth 0); these texts have ~40 candidate
+        # sequences, more than the default beam keeps
+        cands = [norm(O.value(c.resolution)) for c in O.cands(text, ref, max_stack_depth=10 if strict else 0)]
+        got = norm(O.bestval(text, ref))
+    except Exception as e:
+        return text, ("parse-raises(see C01):" + type(e).__name__, repr(e))
+    if (got == exp) if strict else (exp in cands):
+        return text, None
+    return text, ("pod-range:{}|{}".format("pm" if pm else "am", classify_interval(got, exp) if strict else "oracle-value-not-among-candidates"),
+                  "{!r} at {} -> {} expected {} (candidates {})".format(text, ref.isoformat(), O.vstr(got), O.vstr(exp), [O.vstr(c) for c in cands][:4]))
+
+
+def _podrange_shard(arg):
+    pid, part = arg
+    acc = core.Acc(pid)
+    k = 0
+    for pod, pm in part:
+        for sh, eh in ((8, 9), (2, 4), (6, 8), (1, 11), (9, 10)):
+            for anchor in ("tomorrow", "date", "none"):
+                for style in ("colon", "bare"):
+                    k += 1
+                    if style == "bare" and (sh, eh) not in ((8, 9), (2, 4)):
+                        continue   # depth 0 costs 1-2 s per text
+                    wrapper = WRAPPERS[k % len(WRAPPERS)] if k % 2 else ("", "")
+                    joiner = CLOCK_JOINERS[k % len(CLOCK_JOINERS)]
+                    if style == "bare":
+                        # 'H-H' without blanks is also the month-day notation (6-8 = June 8th): word joiners only
+                        joiner = [" to ", " bis ", " until ", " - "][k % 4]
+                    text, r = check_podrange(pod, pm, sh, eh, wrapper, joiner, anchor, style, ANCHOR_REF)
+                    acc.case((text,), nontrivial=pm, cls=["pod-range", "pm" if pm else "am", "anchor:" + anchor, "style:" + style],
+                             sample={"text": text, "ts": ANCHOR_REF.isoformat()})
+                    if r:
+                        acc.fail(r[0], {"kind": "podrange", "pod": pod, "pm": pm, "sh": sh, "eh": eh, "wrapper": list(wrapper),
+                                        "joiner": joiner, "anchor": anchor, "style": style}, r[1])
+    return acc
+
+
 def do_clock(acc, args, origin):
     sh, smi, eh, emi, joiner, wrapper, anchor, style, latent, ref = args[:10]
     anchor_first = args[10] if len(args) > 10 else True
     text, exp, r = check_clock(sh, smi, eh, emi, joiner, wrapper, anchor, style, latent, ref, anchor_first)
+    if r == "skip":
+        acc.notes["bare-digit-range-skipped(stream not enumerable within work bound)"] += 1
+        return
     wraps = (eh * 60 + emi) <= (sh * 60 + smi)
     acc.case((text, ref, latent), nontrivial=wraps, cls=[origin, "clock-range", "anchor:" + anchor, "style:" + style,
                                                          "end-not-after-start" if wraps else "end-after-start"],
@@ -365,6 +431,8 @@ def _ba_shard(arg):
 
 def run(ctx):
     acc = core.pmap_acc(ctx.pid, _ba_shard, [(ctx.pid, p) for p in core.chunks(beforeafter_items(), 16)])
+    pods = [(p, True) for p in POD_RANGE_PM] + [(p, False) for p in POD_RANGE_AM]
+    acc.merge(core.pmap_acc(ctx.pid, _podrange_shard, [(ctx.pid, p) for p in core.chunks(pods, 16)]))
     subs = []
     if ctx.thorough:
         pairs = [(a, b) for a in range(24) for b in range(24)]
@@ -385,9 +453,13 @@ def replay(case):
         a = list(case["args"])
         a[5] = tuple(a[5])
         a[9] = core.parse_ts(a[9])
-        return check_clock(*a)[2]
+        r = check_clock(*a)[2]
+        return None if r == "skip" else r
     if case["kind"] == "dates":
         return check_dates(dt.date.fromisoformat(case["a"]), dt.date.fromisoformat(case["b"]), case["shape"], case["joiner"],
                            tuple(case["wrapper"]), core.parse_ts(case["ts"]), case.get("depth", 10))[1]
+    if case["kind"] == "podrange":
+        return check_podrange(case["pod"], case["pm"], case["sh"], case["eh"], tuple(case["wrapper"]), case["joiner"], case["anchor"],
+                              case["style"], ANCHOR_REF)[1]
     x = [t for t in XS if t[0] == case["x"][0]][0]
     return check_beforeafter(case["word"], case["side"], x, core.parse_ts(case["ts"]))[1]
